@@ -184,6 +184,8 @@ func intWidthC01(c *Ctx) {
 					switch {
 					case !okB || !okS || base.Value == nil || bits.Value == nil:
 						c.Unk("C01.intwidth", key, call.Pos(), "base or size is not a constant")
+					case bits.Value.String() != "64":
+						c.Bad("C01.intwidth", key, call.Pos(), "size "+bits.Value.String()+": an integer literal that fits in 64 bits is rejected (or, with the error dropped, stored saturated)")
 					case !errUsed:
 						c.Bad("C01.intwidth", key, call.Pos(), "the conversion error is dropped (size "+bits.Value.String()+"): a literal that does not fit is stored saturated (LIMIT 9223372036854775808 becomes 9223372036854775807), not rejected and not the value that was written")
 					case base.Value.String() != "10" && base.Value.String() != "0" && !errUsed:
